@@ -110,6 +110,8 @@ def wl_panel(ctx, rng, case_no):
             "width": rng.choice([None, None, None, 12, 30, 250]), "padding": SP.rand_pad(rng),
             "safe_box": rng.choice([None, True, False]),
             "style": G.definition(G.rand_record(rng, p_attr=0.1)) if rng.random() < 0.3 else "none"}
+    if rng.random() < 0.25:
+        spec["decor"] = SP._decor("panel", rng)
     m = SP.structural_min(spec)
     pt, pr, pb, pl = SP.unpack_pad(spec["padding"])
     for W in widths_for(rng, m):
@@ -382,9 +384,10 @@ def wl_rule(ctx, rng, case_no):
         ctx.count("mon.rule")
         from rich.text import Text
         # a Text title: a str would be parsed as console markup (a separate feature, decided by C04)
+        rule_kw = {"style": rng.choice(SP.DECOR_STYLES)} if rng.random() < 0.25 else {}
         g = grid(console, Rule(Text(title) if rng.random() < 0.7 or "[" in title or "\\" in title or ":" in title
-                               else title, characters=characters, align=align))
-        wit = {"title": title, "characters": characters, "align": align, "width": W,
+                               else title, characters=characters, align=align, **rule_kw))
+        wit = {"title": title, "characters": characters, "align": align, "width": W, "options": rule_kw,
                "lines": [gtext(l) for l in g], "ascii_only": ascii_only}
         if len(g) != 1:
             if not (len(g) == 0 and W < 1):
@@ -430,13 +433,19 @@ def wl_bar(ctx, rng, case_no):
             begin = size * (k + rng.choice([0, 0.01, 0.49, 0.5, 0.51, 0.99])) / (8 * wcells)
             end = min(size, begin + size * rng.choice([0, 0.001, 0.01, 0.1, 0.5, 1, 7.99, 8]) / (8 * wcells))
         ctx.count("mon.bar")
-        g = grid(console, Bar(size, begin, end, width=bw))
+        bar_kw = SP._decor("bar", rng) if rng.random() < 0.25 else {}
+        g = grid(console, Bar(size, begin, end, width=bw, **bar_kw))
         want = min(bw or W, W)
         wit = {"bar": [size, begin, end, bw], "width": W, "lines": [gtext(l) for l in g], "eighth_boundary_case": boundary}
         if len(g) != 1 or gwidth(g[0]) != want:
             ctx.violation("bar-width-wrong", dict(wit, want=want, got=[gwidth(l) for l in g]))
         ctx.count("mon.pbar")
-        g = grid(console, ProgressBar(total=total, completed=completed, width=bw, pulse=pulse, animation_time=1.5))
+        pbar_kw = SP._decor("pbar", rng) if rng.random() < 0.25 else {}
+        pbar = ProgressBar(total=total, completed=completed if not pbar_kw else 0, width=bw, pulse=pulse,
+                           animation_time=1.5, **pbar_kw)
+        if pbar_kw:
+            pbar.update(completed, total)       # the state set after construction, as a live progress display does
+        g = grid(console, pbar)
         wit = {"progress_bar": [total, completed, bw, pulse], "width": W, "color_system": cs, "no_color": no_color,
                "lines": [gtext(l) for l in g]}
         got = sum(gwidth(l) for l in g)
@@ -464,13 +473,20 @@ def wl_columns(ctx, rng, case_no):
     opts = {"equal": rng.random() < 0.3, "expand": rng.random() < 0.3, "column_first": rng.random() < 0.4,
             "right_to_left": rng.random() < 0.3, "align": rng.choice([None, None, "left", "center", "right"]),
             "padding": SP.rand_pad(rng)}
+    via_add = rng.random() < 0.3
     widest = max(cellref.width(p) for t in tokens for p in t.split("\n"))
     _, pr, _, pl = SP.unpack_pad(opts["padding"])
     m = widest + pl + pr
     for W in widths_for(rng, m, extra=(widest * 2 + 3, widest * 3 + 6)):
         console = consoles.layout_console(W)
         ctx.count("mon.columns")
-        g = grid(console, Columns(list(tokens), **opts))
+        if via_add:
+            cols = Columns(None, **opts)
+            for t in tokens:
+                cols.add_renderable(t)
+        else:
+            cols = Columns(list(tokens), **opts)
+        g = grid(console, cols)
         lines = [gtext(l) for l in g]
         wit = {"tokens": tokens, "options": opts, "width": W, "lines": lines[:40]}
         if any(gwidth(l) > W for l in g):
@@ -529,6 +545,8 @@ def wl_tree(ctx, rng, case_no):
                 n["children"].append(node(d + 1, visible and n["expanded"]))
         return n
     spec = {"k": "tree", "root": node(0, True)}
+    if rng.random() < 0.25:
+        spec["decor"] = SP._decor("tree", rng)
     m = SP.structural_min(spec)
     hidden = set(pool.used) - set("".join(t for t, _ in nodes)) - S.FRAME_GLYPHS - set(" \n\t")
     for W in widths_for(rng, m):
